@@ -67,13 +67,15 @@ type Config struct {
 	Username bool     `json:"username,omitempty"`
 	Refusal  int      `json:"refusal,omitempty"` // authboss.MWRespondOnFailure
 
-	LockAfter    int  `json:"lock_after,omitempty"`
-	LockWindowS  int  `json:"lock_window_s,omitempty"`
-	LockDurS     int  `json:"lock_dur_s,omitempty"`
-	ExpireS      int  `json:"expire_s,omitempty"`
-	RecoverDurS  int  `json:"recover_dur_s,omitempty"`
-	RecoverLogin bool `json:"recover_login,omitempty"`
-	EmailAuth    bool `json:"email_auth,omitempty"`
+	LockAfter int `json:"lock_after,omitempty"`
+	// LockAfterZero: Modules.LockAfter = 0, the boundary value (every failure locks; accounts can also be locked by the application)
+	LockAfterZero bool `json:"lock_after_zero,omitempty"`
+	LockWindowS   int  `json:"lock_window_s,omitempty"`
+	LockDurS      int  `json:"lock_dur_s,omitempty"`
+	ExpireS       int  `json:"expire_s,omitempty"`
+	RecoverDurS   int  `json:"recover_dur_s,omitempty"`
+	RecoverLogin  bool `json:"recover_login,omitempty"`
+	EmailAuth     bool `json:"email_auth,omitempty"`
 
 	LogoutMethod    string   `json:"logout_method,omitempty"`
 	MailMethod      string   `json:"mail_method,omitempty"`
@@ -88,6 +90,9 @@ type Config struct {
 	HTTPS           bool     `json:"https,omitempty"`
 	Providers       []string `json:"providers,omitempty"`
 	LegacyRedirect  bool     `json:"legacy_redirect,omitempty"`  // Modules.RoutesRedirectOnUnauthed=true instead of ResponseOnUnauthed (module routes only)
+	StockDetails    bool     `json:"stock_details,omitempty"`    // providers use the library's own GoogleUserDetails / FacebookUserDetails (the in-process provider answers their user-info endpoints)
+	NoCookieStore   bool     `json:"no_cookie_store,omitempty"`  // Storage.CookieState left nil (documented as needed for remember-me only)
+	Localizer       string   `json:"localizer,omitempty"`        // "untranslated": a Localizer whose catalog has no entry for the request's language (answers "" as its contract says; the library falls back to the default texts)
 	ExtraRulePages  []string `json:"extra_rule_pages,omitempty"` // the application appends a validation rule of its own (for a field nobody is required to send) to these pages' rulesets
 	UpstreamLookup  int      `json:"upstream_lookup,omitempty"`  // an application middleware in front of expire/remember that looks the user up (request log, data injector): 1 CurrentUser, 2 LoadCurrentUser
 	MiddlewareEarly bool     `json:"middleware_early,omitempty"` // expire/remember Middleware(ab) constructed before the instance is configured, applied afterwards
@@ -338,7 +343,9 @@ func NewWorld(cfg Config) (w *World, err error) {
 	ab.Config.Paths.TwoFactorEmailAuthNotOK = "/notok/2fa-email"
 
 	ab.Config.Modules.BCryptCost = bcrypt.MinCost
-	if cfg.LockAfter > 0 {
+	if cfg.LockAfterZero {
+		ab.Config.Modules.LockAfter = 0
+	} else if cfg.LockAfter > 0 {
 		ab.Config.Modules.LockAfter = cfg.LockAfter
 	}
 	if cfg.LockWindowS > 0 {
@@ -387,7 +394,9 @@ func NewWorld(cfg Config) (w *World, err error) {
 	}
 	ab.Config.Storage.Server = w.Store
 	ab.Config.Storage.SessionState = StateRW{Session: true, B: w.B, Resolve: resolve, NilWhenEmpty: cfg.NilEmptyState}
-	ab.Config.Storage.CookieState = StateRW{Session: false, B: w.B, Resolve: resolve}
+	if !cfg.NoCookieStore || cfg.Has("remember") || cfg.Middleware == "remember" {
+		ab.Config.Storage.CookieState = StateRW{Session: false, B: w.B, Resolve: resolve}
+	}
 
 	ab.Config.Core.ViewRenderer = FaultRenderer{Inner: defaults.JSONRenderer{}, B: w.B, Name: "Render"}
 	ab.Config.Core.MailRenderer = FaultRenderer{Inner: defaults.JSONRenderer{}, B: w.B, Name: "MailRender"}
@@ -416,6 +425,9 @@ func NewWorld(cfg Config) (w *World, err error) {
 	if len(cfg.RegWhitelist) > 0 {
 		br.Whitelist["register"] = append(br.Whitelist["register"], cfg.RegWhitelist...)
 	}
+	if cfg.Localizer == "untranslated" {
+		ab.Config.Core.Localizer = untranslated{}
+	}
 	for _, page := range cfg.ExtraRulePages {
 		br.Rulesets[page] = append(br.Rulesets[page], defaults.Rules{FieldName: "app_note", MaxLength: 500})
 	}
@@ -437,6 +449,15 @@ func NewWorld(cfg Config) (w *World, err error) {
 					Scopes: []string{"profile"},
 				},
 				FindUserDetails: w.findUserDetails,
+			}
+			if cfg.StockDetails {
+				pr := ab.Config.Modules.OAuth2Providers[p]
+				if p == "fb" {
+					pr.FindUserDetails = abo2.FacebookUserDetails
+				} else {
+					pr.FindUserDetails = abo2.GoogleUserDetails
+				}
+				ab.Config.Modules.OAuth2Providers[p] = pr
 			}
 		}
 	}
@@ -483,6 +504,13 @@ func NewWorld(cfg Config) (w *World, err error) {
 	w.seedAccounts()
 	w.buildHandler()
 	return w, nil
+}
+
+// untranslated is a Localizer without a translation for anything the visitor's language needs.
+type untranslated struct{}
+
+func (untranslated) Localizef(ctx context.Context, key authboss.LocalizationKey, args ...any) string {
+	return ""
 }
 
 type errWrap struct {
@@ -545,7 +573,23 @@ func (w *World) findUserDetails(ctx context.Context, cfg oauth2.Config, tok *oau
 type providerRT struct{ w *World }
 
 func (p providerRT) RoundTrip(r *http.Request) (*http.Response, error) {
-	body, _ := io.ReadAll(r.Body)
+	if r.URL.Host == "www.googleapis.com" || r.URL.Host == "graph.facebook.com" {
+		// the user-info endpoints the library's stock FindUserDetails functions ask
+		code := strings.TrimPrefix(strings.TrimPrefix(r.Header.Get("Authorization"), "Bearer "), "at:")
+		p.w.mu.Lock()
+		id, ok := p.w.OAuthCodes[code]
+		p.w.mu.Unlock()
+		if !ok || id.Fail == "details" {
+			return nil, fmt.Errorf("provider refused details")
+		}
+		b, _ := json.Marshal(map[string]string{"id": id.UID, "email": id.Email, "name": "N " + id.UID})
+		return &http.Response{StatusCode: 200, Status: "200", Header: http.Header{"Content-Type": []string{"application/json"}},
+			Body: io.NopCloser(bytes.NewReader(b)), Request: r, ProtoMajor: 1, ProtoMinor: 1}, nil
+	}
+	var body []byte
+	if r.Body != nil {
+		body, _ = io.ReadAll(r.Body)
+	}
 	vals, _ := url.ParseQuery(string(body))
 	code := vals.Get("code")
 	p.w.mu.Lock()
